@@ -92,7 +92,15 @@ def lean_audit():
             return c['axioms']
     except Exception:
         pass
-    p = subprocess.run(['lake', 'env', 'lean', 'MpireModel/Audit.lean'], cwd=LEAN, capture_output=True, text=True)
+    # generated on every run from the Props files: one `#print axioms` per property theorem
+    props = sorted(f[:-5] for f in os.listdir(os.path.join(LEAN, 'MpireModel', 'Props')) if f.endswith('.lean'))
+    gen = ['import MpireModel.Props.%s' % p for p in props]
+    for pr in props:
+        gen += ['#print axioms Mpire.%s.%s' % (pr, t) for t in property_theorems(pr)]
+    os.makedirs(os.path.join(LEAN, '.lake'), exist_ok=True)
+    with open(os.path.join(LEAN, '.lake', 'AuditGen.lean'), 'w') as f:
+        f.write('\n'.join(gen) + '\n')
+    p = subprocess.run(['lake', 'env', 'lean', '.lake/AuditGen.lean'], cwd=LEAN, capture_output=True, text=True)
     if p.returncode != 0:
         raise AuditFailed(p.stdout[-3000:] + p.stderr[-3000:])
     out = p.stdout
@@ -239,7 +247,7 @@ class Check:
                 samples.append({'suite': n, 'case': x})
         cov = {
             'obligations': len(self.obligations), 'discharged': len(self.discharged),
-            'checker_cmd': 'cd lean && lake build && lake env lean MpireModel/Audit.lean   (+ source scan for sorry/admit/axiom/native_decide/bv_decide/implemented_by/unsafe)',
+            'checker_cmd': 'cd lean && lake build && lake env lean .lake/AuditGen.lean (generated: #print axioms for every theorem of Props/*.lean)   (+ source scan for sorry/admit/axiom/native_decide/bv_decide/implemented_by/unsafe)',
             'trusted_base': TRUSTED_BASE + self.assumptions,
             'theorems': self.obligations,
             'evaluations': evaluations, 'distinct_nontrivial': distinct,
